@@ -3,6 +3,8 @@
 package state
 
 import (
+	"github.com/ChainSafe/gossamer/dot/types"
+	"github.com/ChainSafe/gossamer/internal/database"
 	"github.com/ChainSafe/gossamer/lib/blocktree"
 	"github.com/ChainSafe/gossamer/lib/common"
 )
@@ -22,3 +24,21 @@ func (t *Tries) VerifLen() int { return t.len() }
 func (t *Tries) VerifHas(root common.Hash) bool { return t.get(root) != nil }
 
 func (t *Tries) VerifDelete(root common.Hash) { t.delete(root) }
+
+// VerifRoots lists the state roots currently cached.
+func (t *Tries) VerifRoots() []common.Hash {
+	t.mapMutex.RLock()
+	defer t.mapMutex.RUnlock()
+	out := make([]common.Hash, 0, len(t.rootToTrie))
+	for r := range t.rootToTrie {
+		out = append(out, r)
+	}
+	return out
+}
+
+// VerifNewServiceOverDB builds a Service whose Start() runs the real reload
+// path over an injected database (the simulated disk).
+func VerifNewServiceOverDB(db database.Database, tel Telemetry, cfg *types.BabeConfiguration) *Service {
+	return &Service{db: db, isMemDB: true, Telemetry: tel, genesisBABEConfig: cfg,
+		closeCh: make(chan interface{}), Base: NewBaseState(db)}
+}
